@@ -15,8 +15,7 @@ configurations.  Hypotheses:
 * `WFG arc` — the invariants the thirteen geometry constructors enforce (what every `Geometry` object
             satisfies); `arc` is the oracle for the one check that is floating-point arithmetic (the
             circular-string envelope computation) and every theorem holds for every oracle,
-* `Fits`  — element counts fit the 32-bit count word, and no compound-curve section is empty
-            (see `compound_empty_section_unreadable`: without it the statement is false of the code),
+* `Fits`  — element counts fit the 32-bit count word,
 * `sridFits` — the SRID is a C `int`.
 
 Main results
@@ -31,7 +30,8 @@ Main results
                        form and `read_write_canon` the exact description of the deviation;
 * `write_order_agree`, `hex_roundtrip`, `readHex_writeHex`, `rewrite_fixpoint`
   (+ `rewrite_fixpoint_needs_hyp`: re-writing does not reproduce the bytes of a NaN/NaN point that carries
-  other bits than the canonical NaN).
+  other bits than the canonical NaN);
+* `compound_empty_section_roundtrip`  COMPOUNDCURVE(EMPTY) round-trips (it did not before /repo 1dd07a8f8).
 -/
 namespace GeosModel.C09
 open GeosModel GeosModel.WKB
@@ -155,17 +155,16 @@ theorem rewrite_fixpoint_needs_hyp (arc : ArcOracle) :
     read_write_canon arc _ _ hv, by decide⟩
 
 /-- COMPOUNDCURVE (EMPTY): a compound curve whose only section is an empty line string (accepted by
-the constructor) -/
+the constructor).  Before /repo 1dd07a8f8 the reader rejected the writer's 18 bytes for it (`minMemSize`
+wanted 16 bytes per section; an empty section has 9) — found by this check, fixed, and now an ordinary
+instance of `read_write_canon`. -/
 def emptySectionCurve : Geom := ⟨0, .compoundCurve [.lineString ⟨false, false, []⟩]⟩
 
-/-- **`Fits`' "no empty section" is necessary**: the writer's bytes for `emptySectionCurve` (18 bytes) are
-*rejected* by the reader — `minMemSize` wants 16 bytes per section but an empty section has 9. -/
-theorem compound_empty_section_unreadable (arc : ArcOracle) :
-    WFG arc emptySectionCurve.g = true ∧
-    ∀ (o : Order) (f : Flavor) (s : Bool), read arc (write ⟨4, o, f, s⟩ emptySectionCurve) = .error .tooSmall := by
-  refine ⟨by rfl, ?_⟩
-  intro o f s
-  cases o <;> cases f <;> cases s <;> rfl
+theorem compound_empty_section_roundtrip (arc : ArcOracle) (o : Order) (f : Flavor) (s : Bool) :
+    read arc (write ⟨4, o, f, s⟩ emptySectionCurve) = .ok emptySectionCurve := by
+  have hv : Valid arc emptySectionCurve := ⟨by rfl, by rfl, by rfl⟩
+  rw [read_write_canon arc _ _ hv]
+  cases f <;> cases s <;> rfl
 
 /-! ## non-vacuity -/
 
